@@ -77,7 +77,7 @@ func parseTemplate(path string) ([]probe, string, error) {
 }
 
 func runZ3Values(text string, timeoutS int) (string, string) {
-	file := filepath.Join(outDir, "smt", fmt.Sprintf("replay%d.smt2", time.Now().UnixNano()))
+	file := filepath.Join(smtDir(), fmt.Sprintf("replay%d.smt2", time.Now().UnixNano()))
 	os.MkdirAll(filepath.Dir(file), 0o755)
 	os.WriteFile(file, []byte(text), 0o644)
 	defer os.Remove(file)
@@ -360,7 +360,7 @@ func runReplayTest(cfg *Config, ld *Loaded, o *Obligation, replayPath, tmpl stri
 		}
 		return m
 	})
-	dir := filepath.Join(outDir, "replay")
+	dir := filepath.Join(outDir, "replay", fmt.Sprintf("p%d", os.Getpid()))
 	os.MkdirAll(dir, 0o755)
 	base := sanitize(filepath.Base(replayPath))
 	testFile := filepath.Join(dir, base+"_test.go")
